@@ -11,6 +11,7 @@ func propC04(c *Ctx) propInfo {
 	c.intFamily(true, false, false)
 	c.codecEngine()
 	c.magicRadix()
+	c.signedRangeByBitLen() // Int128/256/257 are written through the signed big-integer writer
 	c.lossyConversions(excC03Lossy, "tlb", "wallet", "ton", "tl")
 	c.cursorFreeEncoders("E10.cursor-free-encode", excCursorFree, "tlb", "wallet", "abi")
 	c.externalEnvelope()
